@@ -86,6 +86,19 @@ def cases(tier, seed, shard, nshards):
     r = rng_for(seed, shard, "c18")
     for limit in ([256, 1024, 4096, 32768, 65536] if shard % 2 == 0 else [512, 2048, 8192, 16384, 32768]):
         yield {"k": "rt", "texts": [window_text(r, limit), "b", "c"], "opts": {}, "inplace": shard % 4 < 2}
+    # HOW MANY of a feature one value holds (seed C18-l: numbered place-holders without a terminator: the 11th distinct URL
+    # comes back as the 2nd + '0'): k distinct / k equal URLs, math spans, both interleaved, around 10, 100 and 256
+    j = 0
+    for k in (2, 3, 9, 10, 11, 12, 21, 99, 100, 101, 111, 257) if tier == "quick" else (2, 3, 9, 10, 11, 12, 21, 99, 100, 101, 111, 255, 256, 257, 1000, 1001):
+        urls = ["http://site%d.org/p_%d" % (i, i) for i in range(k)]
+        maths = ["$x_%d + a^%d$" % (i % 7, i) for i in range(k)]
+        fams = [" ".join(urls), " and ".join(["www.same.org/a_b"] * k), " ".join(maths), " ".join(u + " " + m for u, m in zip(urls, maths)), " ".join(reversed(urls)),
+                " ".join("caf\u00e9%d" % i for i in range(k)), ", ".join("https://x.y/%d" % (10 ** (i % 4) + i) for i in range(k))]
+        for t in fams:
+            for oi in range(len(ENC_OPTS)):
+                j += 1
+                if j % nshards == shard:
+                    yield {"k": "rt", "texts": [t, "b", rand_text(r)], "opts": ENC_OPTS[oi], "inplace": bool(j & 1)}
     n = tier_pick(tier, 24000, 960000) // nshards
     for i in range(n):
         m = i % 6
